@@ -2,8 +2,10 @@
 //   csvm <bias> <shrink> <C> <eps> <maxit> <n> <d> x.. y..            (integer points, LINEAR kernel; compared
 //        bit-for-bit with the Lean trainer model, lean/Driver/C07.lean)
 //   cfg  <kernel lin|rbf> <gamma> <bias> <shrink> <precompute> <cache> <C> <eps> <n> <d> x.. y..   (oracle only)
-//   csvm2 <bias> <shrink> <Cn> <Cp> <eps> <maxit> <n> <d> x.. y.. w..   class-specific C + per-example weights (cold start)
-//   esvr  <shrink> <C> <tube> <eps> <maxit> <n> <d> x.. y..             EpsilonSvmTrainer (coefficients, stop, iterations)
+//   csvm2 <bias> <shrink> <precompute> <cache> <weighted> <Cn> <Cp> <eps> <maxit> <warmit> <warmfac> <n> <d> x.. y.. w..
+//        CSvmTrainer: one C (Cn == Cp) or class-specific C, plain or weighted data (weighted = 0: all w must be 1), cold
+//        (warmit = 0) or warm start (a first training with C*warmfac and at most warmit iterations fills the model)
+//   esvr  <shrink> <C> <tube> <eps> <maxit> <n> <d> x.. y..             EpsilonSvmTrainer
 //   ocsvm <shrink> <nu> <eps> <maxit> <n> <d> x..                       OneClassSvmTrainer (coefficients, offset, stop, its)
 //        (these three: integer points, LINEAR kernel, compared bit-for-bit with the Lean trainer model as well)
 //   trn  <kind c|e|o> <kernel lin|rbf> <gamma> <bias> <shrink> <precompute> <cache> <eps> <maxit> <warmit> <warmfac>
@@ -281,12 +283,15 @@ int main(){
 		}else if(t[0] == "cfg" && t.size() >= 11){
 			kern = t[1]; gamma = untok(t[2]); bias = t[3] == "1"; shrink = t[4] == "1"; pre = t[5] == "1"; cache = std::stoul(t[6]);
 			C = untok(t[7]); eps = untok(t[8]); n = std::stoul(t[9]); d = std::stoul(t[10]); at = 11;
-		}else if((t[0] == "csvm2" && t.size() >= 9) || (t[0] == "esvr" && t.size() >= 8) || (t[0] == "ocsvm" && t.size() >= 7)){
-			// model-comparison ops for the widened trainers (linear kernel, default cache, cold start); no oracle suffix:
-			// the oracle runs on the `trn` cross
+		}else if((t[0] == "csvm2" && t.size() >= 14) || (t[0] == "esvr" && t.size() >= 8) || (t[0] == "ocsvm" && t.size() >= 7)){
+			// model-comparison ops for the widened trainers (linear kernel); no oracle suffix: the oracle runs on the `trn` cross
 			GenCfg c; c.kern = "lin"; c.gamma = 1; c.pre = false; c.cache = 0; c.warmit = 0; c.warmfac = 1; c.weighted = false; c.bias = true;
 			std::size_t p;
-			if(t[0] == "csvm2"){ c.kind = "c"; c.bias = t[1] == "1"; c.shrink = t[2] == "1"; c.p1 = untok(t[3]); c.p2 = untok(t[4]); c.eps = untok(t[5]); c.maxit = std::stoull(t[6]); n = std::stoul(t[7]); d = std::stoul(t[8]); p = 9; c.weighted = true; }
+			if(t[0] == "csvm2"){
+				c.kind = "c"; c.bias = t[1] == "1"; c.shrink = t[2] == "1"; c.pre = t[3] == "1"; c.cache = std::stoul(t[4]); c.weighted = t[5] == "1";
+				c.p1 = untok(t[6]); c.p2 = untok(t[7]); c.eps = untok(t[8]); c.maxit = std::stoull(t[9]); c.warmit = std::stoull(t[10]); c.warmfac = untok(t[11]);
+				n = std::stoul(t[12]); d = std::stoul(t[13]); p = 14;
+			}
 			else if(t[0] == "esvr"){ c.kind = "e"; c.shrink = t[1] == "1"; c.p1 = untok(t[2]); c.p2 = untok(t[3]); c.eps = untok(t[4]); c.maxit = std::stoull(t[5]); n = std::stoul(t[6]); d = std::stoul(t[7]); p = 8; }
 			else{ c.kind = "o"; c.shrink = t[1] == "1"; c.p1 = untok(t[2]); c.p2 = 0; c.eps = untok(t[3]); c.maxit = std::stoull(t[4]); n = std::stoul(t[5]); d = std::stoul(t[6]); p = 7; }
 			std::size_t extra = c.kind == "c" ? 2*n : (c.kind == "e" ? n : 0);
@@ -300,7 +305,7 @@ int main(){
 				Result r = trainGeneral(c);
 				os << "acc=" << (r.acc ? 1 : 0) << " it=" << r.it << " alpha=[";
 				for(std::size_t i = 0; i != n; ++i){ if(i) os << ","; os << tok(r.alpha[i]); }
-				os << "] b=" << (c.kind == "e" ? std::string("skip") : tok(r.b));
+				os << "] b=" << tok(r.b);
 			}catch(std::exception const& e){ os << "exception " << e.what(); }
 			std::cout << os.str() << "\n";
 			continue;
